@@ -9,7 +9,7 @@ from .. import tlc
 
 PROP = "C11"
 TRACE_MODULE = "C11_Trace"
-EXHAUSTIVE = True
+EXHAUSTIVE = False  # families with every_kth_of_the_space = 1 (see evidence notes) are complete, the others are strided samples
 NPROC = 8
 SHARDS = 8
 TASK_TIMEOUT = 300
@@ -196,7 +196,7 @@ def scenarios(ctx):
 
     def add(name, p, nf, per, *a, **kw):
         ins, gs = _gen(ctx, p, *a, **kw)
-        notes[name] = {"tuples": len(ins), "group_elements": len(gs)}
+        notes[name] = {"tuples": len(ins), "group_elements": len(gs), "every_kth_of_the_space": kw.get("stride", 1)}
         _batch(scs, p, nf, _combine(ins, gs, rng, per), rng, name, mav=kw.get("na", 2) > 2)
 
     S012 = "{0, 1, 2}"
